@@ -34,7 +34,7 @@ func runC11(r *simkit.R) {
 	cfg := drawFsCfg(r, false)
 	cfg.generic = r.Bool(15)
 	nobj := 3 + r.Intn(5)
-	w := newFsWorld(r, cfg, nobj)
+	w := newFsWorld(r, cfg, nobj+41)
 	w.root = filepath.Join(r.Dir, "t")
 	w.t = w.openTree(w.root)
 	r.OnCleanup(func() { _ = w.t.Close() })
@@ -98,6 +98,22 @@ func runC11(r *simkit.R) {
 		}
 		objs = append(objs, st)
 		r.Logf("o%d payload=%d form=%s", id, sz, st.form)
+	}
+	if r.Bool(40) {
+		// fillers: the combined file of the batch grows beyond the header buffer, so objects sit
+		// at every position of a long combined file
+		nf := 15 + r.Intn(26)
+		for j := 0; j < nf; j++ {
+			id := nobj + j
+			sz := 300 + r.Intn(1200)
+			bin := w.objBytes(id, sz, id+1)
+			var o object.Object
+			_ = o.Unmarshal(bin)
+			batch[w.addr(id)] = bin
+			objs = append(objs, stored{id: id, bin: bin, pl: o.Payload(), form: "batch(filler)"})
+		}
+		combined = !cfg.generic
+		r.Probe("long combined file (batch beyond the header buffer)")
 	}
 	if len(batch) > 0 {
 		if err := w.t.PutBatch(batch); err != nil {
